@@ -221,7 +221,12 @@ def corner_calls(M, rec, rng, reps):
             s1 = lambda x, dt_=dt_: np.array([int(x)], dtype=dt_)  # noqa: E731
             rec.count("corner_calls_with_unsigned_integer_densities")
         if which == "ramp":
-            E.OriginsEngine.get_ramp_flow(s(d), s(w), C, s(r_), rmax, s1(r1), rc, T, "".join(list(rng.choice(("in", "out")))))
+            r_arg = s(r_)
+            if side == "numpy" and r_ in (0.0, 1.0) and rng.random() < 0.4:
+                # an on/off metering signal: the rate as a boolean (`r = rho_first < rho_crit`)
+                r_arg = rng.choice((bool(r_), np.bool_(bool(r_)), np.array([bool(r_)])))
+                rec.count("corner_calls_with_a_boolean_metering_rate")
+            E.OriginsEngine.get_ramp_flow(s(d), s(w), C, r_arg, rmax, s1(r1), rc, T, "".join(list(rng.choice(("in", "out")))))
         elif which == "simple":
             qd = rng.choice((0.0, math.inf, capnow, d + w / T, rng.uniform(0, 2 * C)))
             E.OriginsEngine.get_simplifiedramp_flow(s(qd), s(d), s(w), C, rmax, s1(r1), rc, T, "".join(list("limited")))
